@@ -219,3 +219,21 @@ M('cluster_waveforms_channels_not_applied', ['C08'], 'phylib/io/model.py',
   "        waveforms = data[..., channel_ids]\n", "        channel_ids = np.sort(channel_ids)[:max(1, len(channel_ids) - (len(template_ids) > 2))]\n        waveforms = data[..., channel_ids]\n")
 M('curated_branch_any', ['C08'], 'phylib/io/model.py',
   "        if not np.all(self.spike_clusters == self.spike_templates) and \\", "        if not np.all(self.spike_clusters[:-1] == self.spike_templates[:-1]) and \\")
+# ---- C09 -----------------------------------------------------------------------------------
+M('amps_true_wm_for_wmi', ['C09'], 'phylib/io/model.py',
+  "            templates_wfs[n, :, :] = np.matmul(sparse.data[n, :, :], self.wmi)", "            templates_wfs[n, :, :] = np.matmul(sparse.data[n, :, :], self.wm)")
+M('amps_true_min_channel', ['C09'], 'phylib/io/model.py',
+  "        templates_amps_au = np.max(templates_ch_amps, axis=1)", "        templates_amps_au = np.max(templates_ch_amps[:, :-1], axis=1)")
+M('amplitudes_sum_not_mean', ['C09'], 'phylib/io/model.py',
+  "        n[np.isnan(n)] = 1\n        return a / n", "        n[n > 8] = 8\n        return a / n")
+M('durations_wrong_channel', ['C09'], 'phylib/io/model.py',
+  "        durations = tmp.argmax(axis=1) - tmp.argmin(axis=1)", "        durations = np.abs(tmp.argmax(axis=1) - tmp.argmin(axis=1))")
+M('durations_seconds', ['C09'], 'phylib/io/model.py',
+  "return durations.flatten()[ind].astype(np.float64) / self.sample_rate * 1e3", "return durations.flatten()[ind].astype(np.float64) / self.sample_rate * (1e3 if self.sample_rate > 1 else 1)")
+M('depths_square_without_positive_part', ['C09'], 'phylib/io/model.py',
+  "            features = np.maximum(features, 0) ** 2  # takes only positive values into account", "            features = features ** 2  # takes only positive values into account")
+M('depths_x_for_y', ['C09'], 'phylib/io/model.py',
+  "            ypos = self.channel_positions[ichannels, 1]", "            ypos = self.channel_positions[ichannels, 1 if c else -1 + 2 * (nspi > 50)]")
+M('channels_argmax_abs', ['C09'], 'phylib/io/model.py',
+  "            template_peak_channels = np.argmax(tmp.max(axis=1) - tmp.min(axis=1), axis=1)\n        else:",
+  "            template_peak_channels = np.argmax(np.abs(tmp).max(axis=1), axis=1)\n        else:")
